@@ -397,7 +397,7 @@ class Unit:
         # the join expansion) is subsumed by the outer edit
         outer = [(a, b) for (a, b, _, _) in edits if b > a]
         def _sub(e_):
-            return [(oa, ob) for (oa, ob) in outer if oa <= e_[0] and e_[1] <= ob and (oa, ob) != (e_[0], e_[1]) and not (e_[0] == e_[1] == oa)]
+            return [(oa, ob) for (oa, ob) in outer if oa <= e_[0] and e_[1] <= ob and (oa, ob) != (e_[0], e_[1]) and not (e_[0] == e_[1] == oa) and not (e_[0] == e_[1] == ob)]
         subsumed = {}
         for e_ in edits:
             for o in _sub(e_):
@@ -523,7 +523,7 @@ class Unit:
             if n["k"] == "macro" and n["path"].split("::")[-1] == "select":
                 if "arms" not in n:
                     raise Undecided(f"select! in {key} does not parse as `pat = fut => body` arms")
-                eds += self._select_edits(src, n)
+                eds += self._select_edits(src, n, nodes)
             if n["k"] == "macro" and n["path"].split("::")[-1] == "join":
                 eds += self._join_edits(src, it, n, key)
         # E4
@@ -1151,24 +1151,38 @@ class Unit:
 
     CANCEL_SAFE = {"recv", "sleep", "next", "changed", "notified", "tick", "accept"}
 
-    def _select_edits(self, src, n):
+    def _select_edits(self, src, n, nodes=None):
         """E3: tokio::select! { p = fut => body, ... }  ==>
-        if nondet() { let p = fut; body } else if nondet() {...} else {...}"""
+        if nondet() { let p = fut; body } else if nondet() {...} else {...}
+        E3c (only if an arm's future is an `async {}` block, see _async_arm): that arm becomes one
+        branch for "the block runs to completion" plus one branch per proper statement prefix
+        "the future is dropped after these statements because another arm completed first"."""
         eds = []
         arms = n["arms"]
         s0 = n["span"][0]
         cur = s0
         # E3 models every branch future as ONE atomic step that either completes or has no effect.
         # That is only sound for cancellation-safe futures, so each future must be a single call of
-        # a function from this list (tokio documents them as cancel safe); anything else -- an
-        # `async {}` block, a local async fn with several awaits, a chain of awaits -- is undecided.
-        for a in arms:
+        # a function from this list (tokio documents them as cancel safe); an `async {}` block is
+        # expanded into its cancellation points (E3c); anything else is undecided.
+        async_arms = {}
+        for i, a in enumerate(arms):
             ft = src.text(*a["fut"]).strip()
+            if re.match(r"^async\b", ft):
+                async_arms[i] = self._async_arm(src, n, a, nodes)
+                continue
             m_ = re.match(r"^(?:[\w:]+::)?(\w+)\s*\(.*\)$", ft, re.S) or re.match(r"^[\w\.\s]+\.(\w+)\s*\(.*\)$", ft, re.S)
-            if not m_ or m_.group(1) not in self.CANCEL_SAFE or ".await" in ft:
+            if not m_ or m_.group(1) not in (self.CANCEL_SAFE | getattr(self, "cancel_safe_extra", set())) or ".await" in ft:
                 raise Undecided(f"E3: select! branch future `{ft[:60]}` is not a single call of a cancellation-safe function ({', '.join(sorted(self.CANCEL_SAFE))}): dropping it part-way is not modelled")
         for i, a in enumerate(arms):
-            last = i == len(arms) - 1
+            last = i == len(arms) - 1 and not async_arms
+            if i in async_arms:
+                head = ("" if i == 0 else " else ") + "if nondet() { "
+                eds.append((cur, a["pat"][0], head, None))
+                eds.append((a["pat"][0], a["body"][1], async_arms[i], None))
+                cur = a["body"][1]
+                eds.append((cur, cur, " }", None))
+                continue
             head = ("" if i == 0 else " else ") + ("" if last else "if nondet() ") + "{ let "
             if last and i == 0:
                 head = "{ let "
@@ -1180,13 +1194,66 @@ class Unit:
                 eds.append((a["fut"][1], a["body"][0], "; { ", None))
             cur = a["body"][1]
             tail = " }" if a["body_is_block"] else "; } }"
-            # up to next arm start or macro close
-            nxt = arms[i + 1]["pat"][0] if not last else n["close"] + 1
-            # we need `tail` then (next head). Put tail as edit on [cur, cur) and gap handled by next iteration
             eds.append((cur, cur, tail, None))
-        eds.append((cur, n["close"] + 1, "", None))
-        self._log("E3", src, s0, "tokio::select!{…}", f"demonic if/else chain over {len(arms)} arms")
+        # with cancellation branches every arm is conditional; the chain ends in a stutter step
+        eds.append((cur, n["close"] + 1, " else { }" if async_arms else "", None))
+        self._log("E3", src, s0, "tokio::select!{…}", f"demonic if/else chain over {len(arms)} arms" + (" with cancellation points of async-block futures (E3c)" if async_arms else ""))
         return eds
+
+    def _async_arm(self, src, n, a, nodes):
+        """E3c.  Supported shape, anything else is undecided:
+          * the select! is the only statement of a `loop` body (so "another arm completed" is the
+            same as the next round of the loop);
+          * the arm is `p = async [move] { S1; ..; Sn; TAIL } => p?` (the handler only propagates
+            the block's error).
+        Completion branch: S1..Sn, then TAIL with its error propagated.  Dropped branches: for
+        j = 1..n the statements S1..Sj only (the future was dropped at an await of S(j+1) -- or of
+        TAIL -- because the other arm completed).  `?` inside the block is written out (as E14) and
+        returns from the function, which is what `p?` does with the block's error."""
+        if nodes is None:
+            raise Undecided("E3c: select! with an async-block future outside a whole-function extraction")
+        ft = src.text(*a["fut"])
+        blocks = [b for b in nodes if b["k"] == "block" and a["fut"][0] <= b["span"][0] and b["span"][1] <= a["fut"][1]]
+        if not blocks:
+            raise Undecided("E3c: async block of a select! arm is not indexed")
+        B = min(blocks, key=lambda b: b["span"][0])
+        pat = src.text(*a["pat"]).strip()
+        body = src.text(*a["body"]).strip().rstrip(",").strip()
+        if not re.match(r"^\{?\s*" + re.escape(pat) + r"\s*\?\s*;?\s*\}?$", body) or not re.match(r"^\w+$", pat):
+            raise Undecided(f"E3c: handler of the async-block arm is not `{pat}?`")
+        # the select! must be the only statement of a loop body
+        encl = [st for st in nodes if st["k"] == "stmt" and st["span"][0] <= n["span"][0] and n["span"][1] <= st["span"][1] + 1]
+        if not encl:
+            raise Undecided("E3c: cannot place the select! in its block")
+        st0 = min(encl, key=lambda st: st["span"][1] - st["span"][0])
+        sibl = [st for st in nodes if st["k"] == "stmt" and st["block"] == st0["block"]]
+        blk = [b for b in nodes if b["k"] == "block" and b["id"] == st0["block"]][0]
+        if len(sibl) != 1 or not any(l["k"] == "loop" and l.get("body_open") == blk["open"] for l in nodes):
+            raise Undecided("E3c: a select! with an async-block future must be the only statement of a loop body")
+        stmts = sorted([st for st in nodes if st["k"] == "stmt" and st["block"] == B["id"]], key=lambda st: st["idx"])
+        if not stmts or stmts[-1]["kind"] != "expr" or any(st["kind"] not in ("let", "expr;") for st in stmts[:-1]):
+            raise Undecided("E3c: async block is not `S1; ..; Sn; TAIL`")
+        tries = [x for x in nodes if x["k"] == "try" and B["span"][0] <= x["span"][0] and x["span"][1] <= B["span"][1]]
+
+        def emit(inner, stmts=stmts, tries=tries):
+            def rng(s_, e_):
+                eds_ = [e for e in inner if s_ <= e[0] and e[1] <= e_]
+                for x in tries:
+                    if s_ <= x["span"][0] and x["span"][1] <= e_:
+                        eds_.append((x["span"][0], x["span"][0], "(match ", None))
+                        eds_.append((x["pos"], x["pos"] + 1, " { Ok(__v) => __v, Err(__e) => return Err(::core::convert::From::from(__e)) })", None))
+                self._apply(src, s_, e_, eds_)
+            self.raw("/* E3c: the async-block future runs to completion */ ")
+            for st in stmts[:-1]:
+                rng(*st["span"]); self.raw(" ")
+            self.raw("match (")
+            rng(*stmts[-1]["span"])
+            self.raw(") { Ok(_) => (), Err(__e) => return Err(::core::convert::From::from(__e)) };")
+            for j in range(1, len(stmts)):
+                self.raw(f" }} else if nondet() {{ /* E3c: the future is dropped after its first {j} statement(s): the other arm completed first */ ")
+                for st in stmts[:j]:
+                    rng(*st["span"]); self.raw(" ")
+        return emit
 
     def site_lookup(self, key, byte):
         best = {}
